@@ -441,6 +441,30 @@ impl<T> Shared<T> {
     }
   }
 
+  /// Leaves the async send-waiter set because the future is being dropped
+  /// before it completed. If a notifier had already dequeued this waiter, its
+  /// single metered wake went to a future that will never act on it: pass the
+  /// wake on to the next parked async sender so the freed space is not
+  /// stranded behind a cancelled future.
+  pub(crate) fn cancel_async_send(&self, id: u64) {
+    let mut g = self.async_send_waiters.lock();
+    let prev = g.queue.len();
+    g.queue.retain(|(sid, _, _)| *sid != id);
+    if g.queue.len() != prev {
+      self
+        .async_send_waiter_count
+        .store(g.queue.len(), Ordering::Release);
+      return;
+    }
+    if let Some((_id, waker, _)) = g.queue.pop_front() {
+      self
+        .async_send_waiter_count
+        .store(g.queue.len(), Ordering::Release);
+      drop(g);
+      waker.wake();
+    }
+  }
+
   /// fibre's wake policies verbatim: sync = batch wake sized by freed credits;
   /// async = the H2 metered drip (exactly one). Caller has published `progress`.
   fn notify_senders(&self, freed: usize) {
